@@ -131,7 +131,8 @@ ProgFallbackVal(pr, q) ==
        IN NodeDefaultVal(pr.nodes[i], q)
 NodeDefaultVal(nd, p) ==
   IF IsGraph(nd) THEN ProgFallbackVal(nd.sub, InnerName(nd, p))
-  ELSE "dflt." \o PairGet(nd.pmap, p)         \* the default literal is keyed by the ORIGINAL parameter
+  ELSE LET orig == PairGet(nd.pmap, p)         \* the default literal is keyed by the ORIGINAL parameter
+       IN IF HasPair(nd.dvals, orig) THEN PairGet(nd.dvals, orig) ELSE "dflt." \o orig
 
 (***************************************************************************)
 (* Readiness (helpers.py get_ready_nodes).                                 *)
@@ -210,8 +211,11 @@ CallArgs(args) == [k \in 1..Len(args) |-> <<args[k][2], args[k][3]>>]
 (* State update (types.py GraphState.update_value): version++ iff new or   *)
 (* changed; a sentinel is always a fresh production.                       *)
 (***************************************************************************)
+\* python values that are EQUAL (==) without being the same value: 1 == 1.0 == True, 0 == 0.0 == False.  The engine
+\* compares with != : such a rewrite stores the new value but is no change (no version bump).
+EqClass(v) == IF v \in {"1", "1.0", "True"} THEN "~one" ELSE IF v \in {"0", "0.0", "False"} THEN "~zero" ELSE v
 Apply(st, o, val) ==
-  LET changed == o \notin DOMAIN st.vals \/ st.vals[o] # val \/ val = Sent IN
+  LET changed == o \notin DOMAIN st.vals \/ EqClass(st.vals[o]) # EqClass(val) \/ val = Sent IN
   [st EXCEPT !.vals = Put(st.vals, o, val),
              !.vers = IF changed THEN Put(st.vers, o, Ver(st, o) + 1) ELSE st.vers]
 RECURSIVE ApplyOuts(_, _, _)
